@@ -1,0 +1,170 @@
+//go:build verif
+
+package gojq
+
+import "context"
+
+// Verification hooks for property C07 (build tag verif). Add-only.
+//
+// The Lean model of (*env).Next takes everything the interpreter loop obtains
+// from outside itself as oracle input: results of native callbacks, results of
+// Go iterators, funcIndex2, pathIntact (pointer identity) and error message
+// texts. The functions below let a harness record these from a real run
+// without touching the loop.
+
+// VerifExtEvent is one call out of the interpreter loop.
+type VerifExtEvent struct {
+	Kind  string // "native" | "iternext"
+	Name  string // native callee name / "" for iterators
+	Value any    // result (a JSON value, an Iter wrapped by the recorder, or an opaque Go value)
+	Err   error  // non-nil if the result is an error
+	End   bool   // Iter.Next returned (nil, false)
+}
+
+// VerifRecorder receives the events of instrumented code.
+type VerifRecorder struct {
+	On    func(VerifExtEvent)
+	iters int
+}
+
+type verifRecIter struct {
+	inner Iter
+	id    int
+	rec   *VerifRecorder
+}
+
+func (it *verifRecIter) Next() (any, bool) {
+	v, ok := it.inner.Next()
+	ev := VerifExtEvent{Kind: "iternext"}
+	if !ok {
+		ev.End = true
+	} else if e, isErr := v.(error); isErr {
+		ev.Err = e
+	} else {
+		ev.Value = v
+	}
+	if it.rec.On != nil {
+		it.rec.On(ev)
+	}
+	return v, ok
+}
+
+// VerifIterID reports the handle of an iterator created by instrumented code.
+func VerifIterID(v any) (int, bool) {
+	if it, ok := v.(*verifRecIter); ok {
+		return it.id, true
+	}
+	return 0, false
+}
+
+// VerifInstrument returns a copy of c in which every native callback reports
+// its result to rec; iterators returned by natives are wrapped so that each
+// of their Next results is reported as well. The instruction list is unchanged.
+func VerifInstrument(c *Code, rec *VerifRecorder) *Code {
+	codes := make([]*code, len(c.codes))
+	for i, cd := range c.codes {
+		codes[i] = cd
+		v, ok := cd.v.([3]any)
+		if !ok || cd.op != opcall {
+			continue
+		}
+		f, name := v[0].(func(any, []any) any), v[2].(string)
+		wrapped := func(x any, args []any) any {
+			w := f(x, args)
+			ev := VerifExtEvent{Kind: "native", Name: name}
+			if e, isErr := w.(error); isErr {
+				ev.Err = e
+			} else {
+				if it, isIter := w.(Iter); isIter {
+					rec.iters++
+					w = &verifRecIter{inner: it, id: rec.iters, rec: rec}
+				}
+				ev.Value = w
+			}
+			if rec.On != nil {
+				rec.On(ev)
+			}
+			return w
+		}
+		codes[i] = &code{op: cd.op, v: [3]any{wrapped, v[1], v[2]}}
+	}
+	return &Code{variables: c.variables, codes: codes, codeinfos: c.codeinfos}
+}
+
+// VerifPeek returns the value depth positions below the top of the data stack
+// of a live iterator returned by Run (ok = false if there is none).
+func VerifPeek(it Iter, depth int) (v any, ok bool) {
+	env, isEnv := it.(*env)
+	if !isEnv {
+		return nil, false
+	}
+	s := env.stack
+	i := s.index
+	for ; depth > 0 && i >= 0 && i < len(s.data); depth-- {
+		i = s.data[i].next
+	}
+	if i < 0 || i >= len(s.data) {
+		return nil, false
+	}
+	return s.data[i].value, true
+}
+
+// VerifPathIntact evaluates env.pathIntact(v) in the current state of a live
+// iterator (ok = false when it would not be evaluable: no path being tracked,
+// or it panics).
+func VerifPathIntact(it Iter, v any) (intact, ok bool) {
+	env, isEnv := it.(*env)
+	if !isEnv || env.paths.empty() {
+		return false, false
+	}
+	defer func() {
+		if recover() != nil {
+			intact, ok = false, false
+		}
+	}()
+	return env.pathIntact(v), true
+}
+
+// VerifIndex2 is the function opindex/opindexarray apply.
+func VerifIndex2(v, key any) any { return funcIndex2(nil, v, key) }
+
+// VerifTypeErrorPreview is the value rendering used in error messages.
+func VerifTypeErrorPreview(v any) string { return typeErrorPreview(v) }
+
+// VerifErrInfo classifies an error the way opforktrybegin and opforklabel
+// look at it: "tryend" (inner), "break" (name, v), "halt" (v), "value" (v),
+// or "msg" (any other error; only Error() matters). vmkind names the five
+// error types the interpreter loop raises itself ("" otherwise).
+func VerifErrInfo(err error) (class, name string, v any, inner error, vmkind string) {
+	switch e := err.(type) {
+	case *tryEndError:
+		return "tryend", "", nil, e.err, ""
+	case *breakError:
+		return "break", e.n, e.v, nil, ""
+	case *HaltError:
+		return "halt", "", e.Value(), nil, ""
+	case ValueError:
+		return "value", "", e.Value(), nil, ""
+	case *objectKeyNotStringError:
+		vmkind = "objectkey"
+	case *expectedArrayError:
+		vmkind = "expectedarray"
+	case *invalidPathError:
+		vmkind = "invalidpath"
+	case *invalidPathIterError:
+		vmkind = "invalidpathiter"
+	case *iteratorError:
+		vmkind = "iterator"
+	}
+	return "msg", "", nil, nil, vmkind
+}
+
+// VerifIsEnv reports whether an iterator is a VM environment (as opposed to
+// the one-shot iterators RunWithContext returns for arity mismatches).
+func VerifIsEnv(it Iter) bool { _, ok := it.(*env); return ok }
+
+// VerifHasCtx reports whether the VM polls the context of this iterator.
+func VerifHasCtx(it Iter) bool {
+	env, ok := it.(*env)
+	return ok && env.ctx != context.Background()
+}
